@@ -9,7 +9,7 @@
   backtrack mode the instruction at the pc is a breaker or a fork-like instruction whose restored
   state is the one its backtrack branch expects (`BConf`).
 -/
-import Gojq.Proofs.SafeVMView
+import Gojq.Proofs.SafeVMPaths
 set_option linter.unusedSimpArgs false
 set_option linter.unusedVariables false
 namespace Gojq.SafeVM
@@ -33,7 +33,7 @@ theorem codeAt_range {S : SC} {pc : Int} {i : Shape} (h : codeAt S pc = some i) 
 /-- a successor accepted by the verifier -/
 def SuccOK (S : SC) (s : Int × Abs) : Prop :=
   ∃ b i, annAt S s.1 = some b ∧ codeAt S s.1 = some i ∧ isScope i = false ∧ b.h ≤ s.2.h ∧
-    (b.pend = true → s.2.pend = true)
+    (b.pend = true → s.2.pend = true) ∧ b.pd ≤ s.2.pd
 
 structure Checked (S : SC) : Prop where
   last : codeAt S (S.size - 1) = some .ret
@@ -62,11 +62,11 @@ theorem succOK_sound {S : SC} {s : Int × Abs} (h : succOK S.code S.ann s = true
       | some i =>
         rw [hc] at h3
         simp only [Bool.not_eq_true'] at h3
-        refine ⟨b, i, ?_, ?_, h3, h2.1, ?_⟩
+        refine ⟨b, i, ?_, ?_, h3, h2.1.1, ?_, h2.2⟩
         · unfold annAt; simp [h0, ha]
         · unfold codeAt; simp [h0, hc]
         · intro hb
-          rcases h2.2 with h | h
+          rcases h2.1.2 with h | h
           · rw [hb] at h; simp at h
           · exact h
 
@@ -157,6 +157,18 @@ def hAfter (S : SC) (r : Int) : Nat :=
   | some b => b.h
   | none => 0
 
+/-- the open `pathbegin`s the annotation relies on after the call at `r` returns -/
+def pdAfter (S : SC) (r : Int) : Nat :=
+  match annAt S (r + 1) with
+  | some b => b.pd
+  | none => 0
+
+/-- segments of the paths stack owned by the callers below the current activation -/
+def needP (S : SC) : List (Int × Scope) → Nat
+  | [] => 0
+  | [_] => 0
+  | f :: g :: r => pdAfter S f.2.pc + needP S (g :: r)
+
 /-- entries owned by the callers below the current activation (under the results still to come) -/
 def need (S : SC) : List (Int × Scope) → Nat
   | [] => 0
@@ -174,56 +186,65 @@ def FramesOK (S : SC) (fne : Prop) : List (Int × Scope) → Prop
   | [f] => f.2.pc = S.size - 1
   | f :: g :: r => RetPt S fne f.2.pc ∧ FramesOK S fne (g :: r)
 
-def HConf (S : SC) (fne : Prop) (h : Nat) (stk : List (Int × V)) (frames : List (Int × Scope)) : Prop :=
-  frames ≠ [] ∧ FramesOK S fne frames ∧ h + need S frames ≤ stk.length
+structure HConf (S : SC) (fne : Prop) (a : Abs) (stk : List (Int × V)) (paths : List (Int × V))
+    (frames : List (Int × Scope)) : Prop where
+  ne : frames ≠ []
+  fr : FramesOK S fne frames
+  len : a.h + need S frames ≤ stk.length
+  plen : a.pd + needP S frames ≤ segs paths
 
 def isLabel : V → Bool
   | .jv (.num (.int _)) => true
   | _ => false
 
 /-- what re-entering the instruction at `pc` in backtrack mode needs of the (restored) state -/
-def BConf (S : SC) (fne : Prop) (pc : Int) (err : Option Err) (stk : List (Int × V))
+def BConf (S : SC) (fne : Prop) (pc : Int) (err : Option Err) (stk : List (Int × V)) (paths : List (Int × V))
     (frames : List (Int × Scope)) : Prop :=
   match codeAt S pc with
   | some (.fork _) | some (.forkalt _) | some (.forktrybegin _) | some .iter =>
-    ∃ a, annAt S pc = some a ∧ HConf S fne a.h stk frames ∧ (a.pend = true → fne)
+    ∃ a, annAt S pc = some a ∧ HConf S fne a stk paths frames ∧ (a.pend = true → fne)
   | some (.forklabel _ _) =>
     ∃ i v r, stk = (i, v) :: r ∧ (err = none ∨ isLabel v = true) ∧ (err ≠ none → r ≠ [] ∨ fne)
-  | some .forktryend | some (.object _) | some .backtrack | some .index | some .indexarray
+  | some .forktryend | some (.object _) | some .backtrack | some (.index _) | some (.indexarray _)
   | some (.call _) | some (.callNative _ _) | some .ret | some .pathend => True
   | _ => False
 
 def ForksConf (S : SC) : List FView → Prop
   | [] => True
-  | f :: rest => (∀ err, BConf S (rest ≠ []) f.pc err f.stk f.frames) ∧ ForksConf S rest
+  | f :: rest => (∀ err, BConf S (rest ≠ []) f.pc err f.stk f.paths f.frames) ∧ ForksConf S rest
 
 /-- at a `scope` instruction: how the registers `callpc`, `index` set by the call relate to the state -/
 def EntryConf (S : SC) (fne : Prop) (l : L) (a : Abs) (A : AView) : Prop :=
   FramesOK S fne A.frames ∧
   ((0 ≤ l.callpc ∧ (A.frames = [] → l.callpc = S.size - 1) ∧ (A.frames ≠ [] → RetPt S fne l.callpc) ∧
-      a.h + (if A.frames = [] then 0 else hAfter S l.callpc - 1) + need S A.frames ≤ A.stk.length) ∨
-   (l.callpc = -1 ∧ (∃ i s r, A.frames = (i, s) :: r ∧ l.index = i) ∧ a.h + need S A.frames ≤ A.stk.length))
+      a.h + (if A.frames = [] then 0 else hAfter S l.callpc - 1) + need S A.frames ≤ A.stk.length ∧
+      a.pd + (if A.frames = [] then 0 else pdAfter S l.callpc) + needP S A.frames ≤ segs A.paths) ∨
+   (l.callpc = -1 ∧ (∃ i s r, A.frames = (i, s) :: r ∧ l.index = i) ∧ a.h + need S A.frames ≤ A.stk.length ∧
+      a.pd + needP S A.frames ≤ segs A.paths))
 
 def NMode (S : SC) (l : L) (e : Env) (A : AView) : Prop :=
   l.err = none ∧ ∃ a ins, annAt S l.pc = some a ∧ codeAt S l.pc = some ins ∧ (a.pend = true → A.forks ≠ []) ∧
     (if isScope ins = true then EntryConf S (A.forks ≠ []) l a A ∧ l.index < e.scopes.data.size
-     else HConf S (A.forks ≠ []) a.h A.stk A.frames)
+     else HConf S (A.forks ≠ []) a A.stk A.paths A.frames)
 
 def BMode (S : SC) (l : L) (e : Env) (A : AView) : Prop :=
-  eokO S e.scopes.data.size l.err ∧ (l.pc = S.size ∨ BConf S (A.forks ≠ []) l.pc l.err A.stk A.frames)
+  eokO S e.scopes.data.size l.err ∧ (l.pc = S.size ∨ BConf S (A.forks ≠ []) l.pc l.err A.stk A.paths A.frames)
+
+/-- the paths stack, and the paths stack every pending fork restores, are well-shaped -/
+def PathsInv (A : AView) : Prop := POK A.paths ∧ ∀ f ∈ A.forks, POK f.paths
 
 def Inv (S : SC) (l : L) (e : Env) : Prop :=
-  ∃ A, View e A ∧ GInv S e ∧ ForksConf S A.forks ∧
+  ∃ A, View e A ∧ GInv S e ∧ ForksConf S A.forks ∧ PathsInv A ∧
     (if l.backtrack = true then BMode S l e A else NMode S l e A)
 
 /-- what one instruction establishes -/
 def Post (S : SC) (r : Ctl × L) (e' : Env) : Prop :=
-  ∃ A', View e' A' ∧ GInv S e' ∧ ForksConf S A'.forks ∧
+  ∃ A', View e' A' ∧ GInv S e' ∧ ForksConf S A'.forks ∧ PathsInv A' ∧
     match r.1 with
     | .fall => r.2.backtrack = false ∧ NMode S { r.2 with pc := r.2.pc + 1 } e' A'
     | .jump => r.2.backtrack = false ∧ NMode S r.2 e' A'
     | .brk => eokO S e'.scopes.data.size r.2.err ∧
-        (A'.forks = [] → r.2.err ≠ none → BConf S False r.2.pc none A'.stk A'.frames)
+        (A'.forks = [] → r.2.err ≠ none → BConf S False r.2.pc none A'.stk A'.paths A'.frames)
     | .ret _ => r.2.pc = S.size - 1
 
 /-! ## monotonicity in "a fork is pending" -/
@@ -237,19 +258,20 @@ theorem FramesOK.mono {S : SC} {p q : Prop} (hpq : p → q) : ∀ {fr : List (In
   | [_], h => h
   | _ :: g :: r, h => ⟨h.1.mono hpq, FramesOK.mono hpq (fr := g :: r) h.2⟩
 
-theorem HConf.mono {S : SC} {p q : Prop} (hpq : p → q) {h h' : Nat} (hh : h' ≤ h) {stk frames}
-    (c : HConf S p h stk frames) : HConf S q h' stk frames :=
-  ⟨c.1, c.2.1.mono hpq, by have := c.2.2; omega⟩
+theorem HConf.mono {S : SC} {p q : Prop} (hpq : p → q) {a a' : Abs}
+    {stk paths frames} (c : HConf S p a stk paths frames) (hh : a'.h ≤ a.h := by exact Nat.le_refl _)
+    (hd : a'.pd ≤ a.pd := by exact Nat.le_refl _) : HConf S q a' stk paths frames :=
+  ⟨c.ne, c.fr.mono hpq, by have := c.len; omega, by have := c.plen; omega⟩
 
-theorem BConf.mono {S : SC} {p q : Prop} (hpq : p → q) {pc err stk frames}
-    (c : BConf S p pc err stk frames) : BConf S q pc err stk frames := by
+theorem BConf.mono {S : SC} {p q : Prop} (hpq : p → q) {pc err stk paths frames}
+    (c : BConf S p pc err stk paths frames) : BConf S q pc err stk paths frames := by
   unfold BConf at *
   split
   all_goals (rename_i hc; simp only [hc] at c)
-  · obtain ⟨a, h1, h2, h3⟩ := c; exact ⟨a, h1, h2.mono hpq (Nat.le_refl _), fun hb => hpq (h3 hb)⟩
-  · obtain ⟨a, h1, h2, h3⟩ := c; exact ⟨a, h1, h2.mono hpq (Nat.le_refl _), fun hb => hpq (h3 hb)⟩
-  · obtain ⟨a, h1, h2, h3⟩ := c; exact ⟨a, h1, h2.mono hpq (Nat.le_refl _), fun hb => hpq (h3 hb)⟩
-  · obtain ⟨a, h1, h2, h3⟩ := c; exact ⟨a, h1, h2.mono hpq (Nat.le_refl _), fun hb => hpq (h3 hb)⟩
+  · obtain ⟨a, h1, h2, h3⟩ := c; exact ⟨a, h1, h2.mono hpq, fun hb => hpq (h3 hb)⟩
+  · obtain ⟨a, h1, h2, h3⟩ := c; exact ⟨a, h1, h2.mono hpq, fun hb => hpq (h3 hb)⟩
+  · obtain ⟨a, h1, h2, h3⟩ := c; exact ⟨a, h1, h2.mono hpq, fun hb => hpq (h3 hb)⟩
+  · obtain ⟨a, h1, h2, h3⟩ := c; exact ⟨a, h1, h2.mono hpq, fun hb => hpq (h3 hb)⟩
   · obtain ⟨i, v, r, h1, h2, h3⟩ := c
     exact ⟨i, v, r, h1, h2, fun he => (h3 he).imp id hpq⟩
   all_goals first | trivial | exact c
@@ -263,11 +285,11 @@ theorem FramesOK.tail {S : SC} {p : Prop} {f : Int × Scope} {r : List (Int × S
 /-- entering a successor accepted by the verifier -/
 theorem NMode.of_succ {S : SC} {s : Int × Abs} (hs : SuccOK S s) {l : L} {e : Env} {A : AView}
     (herr : l.err = none) (hpc : l.pc = s.1) (hp : s.2.pend = true → A.forks ≠ [])
-    (hc : HConf S (A.forks ≠ []) s.2.h A.stk A.frames) : NMode S l e A := by
-  obtain ⟨b, i, h1, h2, h3, h4, h5⟩ := hs
+    (hc : HConf S (A.forks ≠ []) s.2 A.stk A.paths A.frames) : NMode S l e A := by
+  obtain ⟨b, i, h1, h2, h3, h4, h5, h6⟩ := hs
   refine ⟨herr, b, i, by rw [hpc]; exact h1, by rw [hpc]; exact h2, fun hb => hp (h5 hb), ?_⟩
   rw [if_neg (by rw [h3]; simp)]
-  exact hc.mono id h4
+  exact hc.mono id h4 h6
 
 /-! ## oracle answers -/
 
@@ -279,7 +301,7 @@ def vpure : V → Bool
   | _ => true
 def ppure : List (V × V) → Bool
   | [] => true
-  | pv :: xs => vpure pv.2 && ppure xs
+  | pv :: xs => vpure pv.2 && notNullV pv.1 && ppure xs
 end
 
 def epure : Err → Bool
@@ -306,7 +328,7 @@ theorem pok_of_pure (S : SC) (n : Int) : ∀ (xs : List (V × V)), ppure xs = tr
   | pv :: xs, h => by
     simp only [ppure, Bool.and_eq_true] at h
     simp only [pok, Bool.and_eq_true]
-    exact ⟨vok_of_pure S n pv.2 h.1, pok_of_pure S n xs h.2⟩
+    exact ⟨⟨vok_of_pure S n pv.2 h.1.1, h.1.2⟩, pok_of_pure S n xs h.2⟩
 end
 
 theorem eok_of_pure (S : SC) (n : Int) : ∀ (er : Err), epure er = true → eok S n er = true
